@@ -126,6 +126,26 @@ theorem request_headers_eq (o : ClientOpt) (enabled : Bool) (offer : Str) (rnd r
     cases enabled <;> simp [kConnection, kUpgrade, kVersion, kExtensions, kKey]
   · simp [goBytesU64BE, Base64.encode]
 
+/-- the client's handshake after the response was parsed, as the sequence of its two translated functions (`handshake()` calls
+`checkHeaders` and, when that passes, `getSubProtocol`) -/
+def clientHandshakeT (o : ClientOpt) (key : Str) (resp : Resp) : Str × Option GoErr :=
+  match Trans.connector_checkHeaders (c_secWebsocketKey := key) (resp_Header := resp.header) (resp_StatusCode := (resp.status : Int)) with
+  | some e => (asc "", some e)
+  | none => Trans.connector_getSubProtocol (c_option_RequestHeader := o.requestHeader) (resp_Header := resp.header)
+
+/-- … is the model's `Hs.clientHandshake`: the client returns a connection (with that sub-protocol) exactly when the model
+accepts, and otherwise the model's error -/
+theorem clientHandshake_eq_translated (o : ClientOpt) (key : Str) (resp : Resp) :
+    clientHandshakeT o key resp =
+      (match clientHandshake o key resp with
+       | .ok sp => (sp, none)
+       | .error e => (asc "", errOfCErr e)) := by
+  unfold clientHandshakeT clientHandshake
+  rw [checkHeaders_eq, getSubProtocol_eq]
+  cases h : checkHeaders key resp with
+  | none => simp
+  | some e => cases e <;> simp [errOfCErr]
+
 /-- `deleteProtectedHeaders` removes exactly the five handshake fields from the configured response headers -/
 theorem deleteProtectedHeaders_eq (h : Header) :
     Trans.ServerOption_deleteProtectedHeaders h = deleteProtectedHeaders h := rfl
